@@ -28,6 +28,12 @@ type Env struct {
 	locals bool
 	bound  map[string]bool
 	depth  int
+	// postLocals: ensures of the function under verification may name locals
+	// (their values at the return), after parameters and results
+	postLocals bool
+	// loopHead: when evaluating clauses of a loop, "rangeindex" denotes that
+	// loop's hidden index variable
+	loopHead *ssa.BasicBlock
 }
 
 func (env *Env) with(name string, v Val) *Env {
@@ -84,6 +90,21 @@ func (ex *Exec) lookupCell(env *Env, name string) (Val, bool) {
 		return Val{}, false
 	}
 	var best *ssa.Alloc
+	if name == "rangeindex" && env.loopHead != nil {
+		body := env.fr.loops.body[env.loopHead]
+		for _, p := range env.loopHead.Preds {
+			if body[p] {
+				continue
+			}
+			for _, ins := range p.Instrs {
+				if a, ok := ins.(*ssa.Alloc); ok && a.Comment == name {
+					if pv, ok := env.st.regs[a]; ok {
+						return ex.cellValue(env, pv), true
+					}
+				}
+			}
+		}
+	}
 	for _, b := range env.fr.fn.Blocks {
 		for _, ins := range b.Instrs {
 			if a, ok := ins.(*ssa.Alloc); ok && a.Comment == name {
@@ -265,6 +286,28 @@ func (ex *Exec) evIdent(name string, env *Env) Val {
 			}
 			if v, ok := env.fr.params[name]; ok {
 				return v
+			}
+		}
+	}
+	if env.postLocals && env.cur == nil {
+		if v, ok := ex.lookupCell(env, name); ok {
+			return v
+		}
+		// a local that was never declared on this path: any value
+		if env.fr != nil {
+			for _, b := range env.fr.fn.Blocks {
+				for _, ins := range b.Instrs {
+					if a, ok := ins.(*ssa.Alloc); ok && a.Comment == name {
+						et := a.Type().Underlying().(*types.Pointer).Elem()
+						key := "undeclared:" + name
+						if v, ok := env.vars[key]; ok {
+							return v
+						}
+						v := ex.havocVal(env.st, "undecl_"+name, et)
+						env.vars[key] = v
+						return v
+					}
+				}
 			}
 		}
 	}
@@ -632,28 +675,51 @@ func (ex *Exec) evQuant(x *SQuant, env *Env) Val {
 		}
 		return TV(Or(parts...), types.Typ[types.Bool])
 	}
-	pats := findPatterns(body.T.S, sym)
+	q := "forall"
+	if !x.Forall {
+		q = "exists"
+	}
 	var inner string
 	if x.Forall {
 		inner = Implies(rng, body.T).S
 	} else {
 		inner = And(rng, body.T).S
 	}
-	q := "forall"
 	if !x.Forall {
-		q = "exists"
+		return TV(mkTerm(fmt.Sprintf("(%s ((%s Int)) %s)", q, sym, inner), SortBool), types.Typ[types.Bool])
 	}
-	var s string
-	if len(pats) > 0 && x.Forall {
-		var ps []string
-		for _, p := range pats {
-			ps = append(ps, ":pattern ("+p+")")
+	// Triggers: solvers normalise arithmetic, so a pattern (select A (+ off j))
+	// rarely matches ground terms. Re-index the quantifier over the absolute
+	// index k = off + j, which makes the trigger a plain (select A k). One
+	// copy of the formula is emitted per candidate trigger (at most two).
+	pats := findPatterns(body.T.S, sym)
+	var copies []string
+	for _, p := range pats {
+		parts := splitTop(p[1 : len(p)-1])
+		idx := parts[2]
+		if idx == sym {
+			copies = append(copies, fmt.Sprintf("(forall ((%s Int)) (! %s :pattern (%s)))", sym, inner, p))
+			continue
 		}
-		s = fmt.Sprintf("(%s ((%s Int)) (! %s %s))", q, sym, inner, strings.Join(ps, " "))
-	} else {
-		s = fmt.Sprintf("(%s ((%s Int)) %s)", q, sym, inner)
+		// idx = (+ OFF sym)
+		off := strings.TrimSuffix(strings.TrimPrefix(idx, "(+ "), " "+sym+")")
+		env.st.nfresh++
+		k := fmt.Sprintf("k%d_%s", env.st.nfresh, mangle(x.Var))
+		body2 := strings.ReplaceAll(inner, idx, k)
+		body2 = strings.ReplaceAll(body2, sym, "(- "+k+" "+off+")")
+		trig := strings.ReplaceAll(p, idx, k)
+		copies = append(copies, fmt.Sprintf("(forall ((%s Int)) (! %s :pattern (%s)))", k, body2, trig))
+		if len(copies) >= 2 {
+			break
+		}
 	}
-	return TV(mkTerm(s, SortBool), types.Typ[types.Bool])
+	if len(copies) == 0 {
+		return TV(mkTerm(fmt.Sprintf("(forall ((%s Int)) %s)", sym, inner), SortBool), types.Typ[types.Bool])
+	}
+	if len(copies) == 1 {
+		return TV(mkTerm(copies[0], SortBool), types.Typ[types.Bool])
+	}
+	return TV(mkTerm("(and "+strings.Join(copies, " ")+")", SortBool), types.Typ[types.Bool])
 }
 
 // findPatterns collects candidate triggers mentioning the bound variable:
@@ -858,6 +924,106 @@ func (ex *Exec) evCall(x *SCall, env *Env) Val {
 		}
 		return TV(app(SortInt, fn, ex.idOf(r)), sig)
 	}
+	switch x.Fn {
+	case "cast":
+		// cast(x, "pkg.Type"): the *pkg.Type held by interface value x
+		v := arg(0)
+		sl, ok := x.Args[1].(*SStr)
+		if !ok {
+			specFail("cast(x, \"pkg.Type\")")
+		}
+		tn := lookupNamed(ex, sl.V)
+		if tn == nil {
+			specFail("cast: unknown type %s", sl.V)
+		}
+		if v.T.Sort == SortIface {
+			return TV(IfVal(v.T), types.NewPointer(tn))
+		}
+		return TV(v.T, types.NewPointer(tn))
+	case "disjoint":
+		a, b := arg(0), arg(1)
+		return TV(Not(Eq(ex.idOf(a), ex.idOf(b))), boolT)
+	case "unchanged":
+		// unchanged(x): every element of slice x is what it was at function entry
+		cur := arg(0)
+		n := *env
+		n.cur = env.old
+		old := ex.ev(x.Args[0], &n)
+		if cur.Kind != VTerm || cur.T.Sort != SortSlice {
+			specFail("unchanged: not a slice")
+		}
+		es := SortInt
+		if sl, ok := cur.Ty.Underlying().(*types.Slice); ok {
+			es = sortOf(sl.Elem())
+		}
+		curArr := Select(ex.heapIn(env, memName(es), memSort(es)), SlRg(cur.T))
+		oldArr := Select(ex.heapIn(&n, memName(es), memSort(es)), SlRg(old.T))
+		env.st.nfresh++
+		k := fmt.Sprintf("k%d_u", env.st.nfresh)
+		lo := SlOff(cur.T)
+		hi := Add(lo, SlLen(cur.T))
+		q := fmt.Sprintf("(forall ((%s Int)) (! (=> (and (<= %s %s) (< %s %s)) (= (select %s %s) (select %s %s))) :pattern ((select %s %s))))",
+			k, lo.S, k, k, hi.S, curArr.S, k, oldArr.S, k, curArr.S, k)
+		return TV(And(Eq(cur.T, old.T), mkTerm(q, SortBool)), boolT)
+	case "isfunc":
+		// isfunc(f, "pkg.Name"): f is exactly that package-level function
+		v := arg(0)
+		sl, ok := x.Args[1].(*SStr)
+		if !ok {
+			specFail("isfunc(f, \"pkg.Func\")")
+		}
+		if v.Kind == VClosure && v.Fn != nil && len(v.Binds) == 0 {
+			return TV(BoolLit(v.Fn.String() == sl.V), boolT)
+		}
+		return TV(FalseT, boolT)
+	case "upd":
+		a, i, v := arg(0), arg(1), arg(2)
+		if !strings.HasPrefix(a.T.Sort, "(Array") {
+			specFail("upd: not an array")
+		}
+		return TV(Store(a.T, i.T, v.T), a.Ty)
+	case "ifacetype":
+		// ifacetype("pkg.Type" or "*pkg.Type"): dynamic type id
+		sl, ok := x.Args[0].(*SStr)
+		if !ok {
+			specFail("ifacetype(\"type\")")
+		}
+		return TV(IntLit(int64(typeIDByName(sl.V))), intT)
+	}
+	if sf, ok := ex.db.StateFns[x.Fn]; ok {
+		if len(sf.Params) != len(x.Args) {
+			specFail("statefn %s: want %d args", x.Fn, len(sf.Params))
+		}
+		var ts []Term
+		var sorts []string
+		for i, ps := range sf.Params {
+			v := arg(i)
+			var t Term
+			if ps == SortBytes {
+				t = ex.toBytes(v, env)
+			} else if ps == SortInt && v.Kind == VTerm && v.T.Sort != SortInt {
+				t = ex.idOf(v)
+			} else {
+				t = v.T
+			}
+			ts = append(ts, t)
+			sorts = append(sorts, ps)
+		}
+		for _, r := range sf.Reads {
+			hn, hs := resolveHeapName(r)
+			if hn == "" {
+				specFail("statefn %s: unknown heap %s", x.Fn, r)
+			}
+			ts = append(ts, ex.heapIn(env, hn, hs))
+			sorts = append(sorts, hs)
+		}
+		fn := "sf." + sf.Name
+		if !env.st.decl[fn] {
+			env.st.decl[fn] = true
+			env.st.emit(fmt.Sprintf("(declare-fun %s (%s) %s)", fn, strings.Join(sorts, " "), sf.Result))
+		}
+		return TV(app(sf.Result, fn, ts...), nil)
+	}
 	if p, ok := ex.db.Preds[x.Fn]; ok {
 		if len(p.Params) != len(x.Args) {
 			specFail("pred %s: want %d args", x.Fn, len(p.Params))
@@ -911,3 +1077,42 @@ func (ex *Exec) evCall(x *SCall, env *Env) Val {
 // verification denote their entry values (locals are looked up in the old
 // cell snapshot).
 func (env *Env) oldParams() {}
+
+func lookupNamed(ex *Exec, name string) types.Type {
+	i := strings.LastIndex(name, ".")
+	if i < 0 {
+		return nil
+	}
+	pkgPath, tn := name[:i], name[i+1:]
+	for _, p := range ex.prog.AllPackages() {
+		if p.Pkg.Path() == pkgPath {
+			if o := p.Pkg.Scope().Lookup(tn); o != nil {
+				return o.Type()
+			}
+		}
+	}
+	return nil
+}
+
+// resolveHeapName maps "Type.field" / "mem.Sort" to a heap name and sort.
+func resolveHeapName(r string) (string, string) {
+	if strings.HasPrefix(r, "mem.") {
+		es := r[4:]
+		return memName(es), memSort(es)
+	}
+	i := strings.LastIndex(r, ".")
+	if i < 0 {
+		return "", ""
+	}
+	ty, f := r[:i], r[i+1:]
+	var found, fs string
+	for name, sort := range allFieldHeaps {
+		parts := strings.Split(name, "|")
+		if len(parts) == 3 && parts[2] == f && (strings.HasSuffix(parts[1], "."+ty) || parts[1] == ty) {
+			if found == "" || name < found {
+				found, fs = name, sort
+			}
+		}
+	}
+	return found, fs
+}
